@@ -21,13 +21,17 @@ Representation choices (DESIGN §3.1, §3.6):
   is not.  What is mirrored exactly is **where** filters, limits and thresholds are applied:
   `TermsCollector::finish` (min_doc_count, size — per segment), `RareTermsCollector::finish`
   and the rare_terms merge arm (max_doc_count, size — per segment and per merge step),
-  `HistogramCollector::finish` (min_doc_count, bounds — per segment), `finalize_response`
-  (terms/rare_terms size; composite after/size/after_key).
+  `HistogramCollector::finish` / `DateHistogramCollector::finish` (min_doc_count, bounds — per
+  segment), `TopHitsCollector::finish` / `merge_top_hits` (`from`/`size` window per segment and
+  per merge step), `finalize_response` (terms/rare_terms size; composite after/size/after_key).
 * Per segment the collectors are streaming (doc by doc); here a segment's bucket is the
   sub-list of the segment's documents that fall into it (`docs.filter (inB b k)`), its
   children are the child collectors run on that sub-list.
 * Numbers are `Rat` (exact); IEEE rounding is outside the model (DESIGN §3.5).
-* `MAX_BUCKETS = 10_000` and the t-digest mode of percentiles (> 256 values) are not modelled.
+* `Doc.id` is the position of the document in the index (segment order, then position in the
+  segment — a commit's documents are stored in id order), the tie-break of top_hits.
+* `MAX_BUCKETS = 10_000`, the t-digest mode of percentiles (> 256 values), significant_terms,
+  sampling, `shard_size` and pipeline aggregations are not modelled.
 -/
 namespace SL.Aggs
 
@@ -290,10 +294,17 @@ def addInterval (iv : DInterval) (cur : Int) : Int :=
       | .year => daysFromCivil (c.1 + 1) 1 1
     next * msPerDay
 
+/-- the step of the bounds-fill loop.  `aligned = false` is the code: `add_interval(current)`,
+whose calendar branch drops the time of day of `current` and with it the offset;
+`aligned = true` is what the reference does: step in the offset-free calendar and add the offset
+back -/
+def fillStep (iv : DInterval) (offset : Int) (aligned : Bool) (cur : Int) : Int :=
+  if aligned then addInterval iv (cur - offset) + offset else addInterval iv cur
+
 /-- the `while current <= end` loop of `DateHistogramCollector::finish` -/
-def fillFrom (iv : DInterval) (cur hi : Int) : Nat → List Int
+def fillFrom (next : Int → Int) (cur hi : Int) : Nat → List Int
   | 0 => []
-  | fuel + 1 => if cur ≤ hi then cur :: fillFrom iv (addInterval iv cur) hi fuel else []
+  | fuel + 1 => if cur ≤ hi then cur :: fillFrom next (next cur) hi fuel else []
 
 /-- `v as i64` on a finite float: truncation toward zero -/
 def truncToInt (q : Rat) : Int := if 0 ≤ q then q.floor else q.ceil
@@ -317,14 +328,15 @@ inductive BSpec (φ κ : Type) where
   | hist (f : φ) (interval offset : Rat) (minDoc : Nat) (ext hard : Option (Rat × Rat))
       (missing : Option Rat)
   | dhist (f : φ) (iv : DInterval) (offset : Int) (minDoc : Nat) (ext hard : Option (Int × Int))
-      (missing : Option Int)
+      (missing : Option Int) (aligned : Bool)
   | filter (p : Pred φ κ)
   | composite (srcs : List (CSrc φ)) (size : Nat) (after : Option (List (Part κ)))
 
 /-- the request as the reference semantics reads it (composite histogram sources see every
-numeric column) -/
+numeric column; the date_histogram bounds fill keeps the offset) -/
 def BSpec.ideal {φ κ : Type} : BSpec φ κ → BSpec φ κ
   | .composite srcs size after => .composite (srcs.map CSrc.ideal) size after
+  | .dhist f iv offset minDoc ext hard missing _ => .dhist f iv offset minDoc ext hard missing true
   | b => b
 
 mutual
@@ -399,7 +411,7 @@ def keysOf (b : BSpec φ κ) (d : Doc φ κ) : List (Key κ) :=
         match hard with
         | some (lo, hi) => !(decide (v < lo) || decide (hi < v))
         | none => true)).map (fun v => Key.num (histId interval offset v))
-  | .dhist f iv offset _ _ hard missing =>
+  | .dhist f iv offset _ _ hard missing _ =>
     (((numVals f (missing.map (fun (m : Int) => (m : Rat))) d).map truncToInt).filter (fun v =>
         match hard with
         | some (lo, hi) => !(decide (v < lo) || decide (hi < v))
@@ -420,7 +432,7 @@ def extraKeys (b : BSpec φ κ) : List (Key κ) :=
     match ext.or hard with
     | some (lo, hi) => (idRange (histId interval offset lo) (histId interval offset hi)).map Key.num
     | none => []
-  | .dhist _ iv offset _ ext hard _ =>
+  | .dhist _ iv offset _ ext hard _ aligned =>
     match ext.or hard with
     | some (lo, hi) =>
       let a := dateBucket iv offset lo
@@ -428,7 +440,7 @@ def extraKeys (b : BSpec φ κ) : List (Key κ) :=
       let start := if b < a then b else a
       let stop := if b < a then a else b
       let minStep : Int := match iv with | .fixed step => step | .calendar _ => msPerDay
-      (fillFrom iv start stop (((stop - start) / minStep).toNat + 2)).map Key.num
+      (fillFrom (fillStep iv offset aligned) start stop (((stop - start) / minStep).toNat + 2)).map Key.num
     | none => []
   | .filter _ => [Key.unit]
   | _ => []
@@ -488,7 +500,7 @@ def finishSeg (b : BSpec φ κ) (bs : Buckets κ) : Buckets κ :=
   | .rare _ maxDoc size =>
     keepTop rareLt size (bs.filter (fun x => decide (0 < x.2.1) && decide (x.2.1 ≤ maxDoc)))
   | .hist _ _ _ minDoc _ _ _ => bs.filter (fun x => decide (minDoc ≤ x.2.1))
-  | .dhist _ _ _ minDoc _ _ _ => bs.filter (fun x => decide (minDoc ≤ x.2.1))
+  | .dhist _ _ _ minDoc _ _ _ _ => bs.filter (fun x => decide (minDoc ≤ x.2.1))
   | _ => bs
 
 /-- the part of a `merge_intermediate_in_place` arm that runs after `merge_bucket_lists`
@@ -528,7 +540,7 @@ def specPost (b : BSpec φ κ) (bs : Buckets κ) : Buckets κ × Option (Key κ)
     (truncate size (sortBy rareLt
       (bs.filter (fun x => decide (0 < x.2.1) && decide (x.2.1 ≤ maxDoc)))), none)
   | .hist _ _ _ minDoc _ _ _ => (bs.filter (fun x => decide (minDoc ≤ x.2.1)), none)
-  | .dhist _ _ _ minDoc _ _ _ => (bs.filter (fun x => decide (minDoc ≤ x.2.1)), none)
+  | .dhist _ _ _ minDoc _ _ _ _ => (bs.filter (fun x => decide (minDoc ≤ x.2.1)), none)
   | b => finalPost b bs
 
 end Buckets
@@ -550,12 +562,25 @@ def svLt (desc : Bool) : Option Rat → Option Rat → Bool
   | some _, none => true
   | some x, some y => if desc then decide (y < x) else decide (x < y)
 
+/-- the parts of `SortKey::cmp`, each compared with its own direction (a shorter key sorts first;
+keys built from one request all have the same length) -/
+def headDir : List Bool → Bool
+  | [] => false
+  | d :: _ => d
+
+def keysLt : List Bool → List (Option Rat) → List (Option Rat) → Bool
+  | _, [], [] => false
+  | _, [], _ :: _ => true
+  | _, _ :: _, [] => false
+  | ds, x :: xs, y :: ys =>
+    if svLt (headDir ds) x y then true
+    else if svLt (headDir ds) y x then false
+    else keysLt ds.tail xs ys
+
 /-- `SortKey::cmp`: parts in order, then (segment_ord, doc_id) — the position of the document in
-the index, which is `Doc.id` for documents committed in corpus order -/
-def hitLt : List Bool → (List (Option Rat) × Nat) → (List (Option Rat) × Nat) → Bool
-  | d :: ds, (x :: xs, i), (y :: ys, j) =>
-    if svLt d x y then true else if svLt d y x then false else hitLt ds (xs, i) (ys, j)
-  | _, (_, i), (_, j) => decide (i < j)
+the index (segment order, then position inside the segment), which is what `Doc.id` holds -/
+def hitLt (dirs : List Bool) (a b : List (Option Rat) × Nat) : Bool :=
+  keysLt dirs a.1 b.1 || (!(keysLt dirs b.1 a.1) && decide (a.2 < b.2))
 
 /-- `pick_numeric`: smallest value for ascending, largest for descending order -/
 def pickVal (desc : Bool) : List Rat → Option Rat
